@@ -14,6 +14,11 @@ def main(tier, t0):
     tasks = stage_check.tasks_for("C09", tier, scenario="permuted", sizes=_sizes)
     from harness import stage
     tasks += stage_check.tasks_for("C09", tier, scenario="permuted", sizes=lambda t, k: [k + 1] if t == "quick" else [k, k + 1, k + 2], structures=stage.label_clash_structures(), label="label-clash")
+    # the order-dependent folds outside the stage (IRI stems, examples) on both orders of the real pipeline
+    tasks += stage_check.tasks_for("C09", tier, scenario="permuted", sizes=lambda t, k: [k + 1], label="with-stems",
+                                   structure_filter=lambda st: st["name"] in ("bnode-instances", "multi-typed", "own-links"), cfg={"real_context": {"detect_minimal_iri": True}})
+    tasks += stage_check.tasks_for("C09", tier, scenario="permuted", sizes=lambda t, k: [k + 1], label="with-stems", structures=stage.namespace_structures(),
+                                   structure_filter=lambda st: st["name"] in ("ns-scheme-only", "ns-three-namespaces", "ns-urn-and-short"), cfg={"real_context": {"detect_minimal_iri": True}})
     tasks += step_check.tasks("C09", tier)
     # (c) blank-node labels through the real readers: for every label (symbolic characters, dots included) the reader yields the blank node with exactly that label
     fnt = [f for f in load_findings("C06") if f.get("family") == "nt"]
